@@ -43,8 +43,7 @@ def build(tier):
               allow_extern=[r'_ZN10ThreadPool.*', r'_ZNSt.*', r'_ZSt.*', r'_ZN4Numa.*', r'_ZNK4Numa.*', r'_ZT[VI].*', r'_ZNKSt.*', r'pthread_\w+', r'__cxa_\w+', r'_Z.*ThreadPool.*'],   # thread-pool branch of clear(): only for tables > 2^20 entries (tableSize is 8 in h_clear)
               **lem('L1-firstbit', 'L2-bitcount'))
     ur = Unit('tbregion', 'C12/tbinstall.cpp', ['h_region'], aliases=REGIONSTUBS)
-    um = Unit('tbmoves', 'C12/tbmoves.cpp', ['h_moves'], aliases=dict(FIRSTBIT, **{'_ZN10TbMoveList4sortEv': 'model_sort'}), **lem('L1-firstbit'))
-    units = [u, up, up5, upr, ui, ur, um]
+    units = [u, up, up5, upr, ui, ur]
     obs = []
     # ---- lemmas for the proved substitutions
     obs.append(Ob('L1-firstbit', u, 'h_lemma_firstbit', 'BitUtil::firstBit/extractBit == index of the lowest set bit == ctz, for every non-empty 64-bit mask',
@@ -122,11 +121,6 @@ def build(tier):
                       unwind=70, param=c, functions=['TBGenerator<TTStorage>::TBGenerator', 'TBPosition::TBPosition', 'TTStorage::resize/store/operator[]', 'TranspositionTable::setUsedSize', 'TranspositionTable::getIndex', 'TranspositionTable::byteSize'],
                       stubs=['TranspositionTable::getByte/putByte -> record the byte index (their real lane arithmetic is O6-lanes)'],
                       bounds=CLASS_TXT % c + 'tableSize any multiple of 4 with byteSize in [7 MiB, 2^39] (2^35 entries); every index < nPositions; every 64-bit hash key'))
-    # ---- O3 forward/backward move consistency (extended)
-    for c in ((0, 4, 8) if thorough else (0,)):
-        obs.append(Ob('O3-moves@c%d' % c, um, 'h_moves', 'every index produced by getMoves(i) has i among its getUnMoves (up to canonisation), for a symbolic valid index i that cannot take the king',
-                      unwind=12, unwindset='h_moves.0:40', param=c, core=False, timeout=3000 if thorough else 120, mem_gb=16,
-                      functions=['TBPosition::getMoves', 'TBPosition::getUnMoves', 'TBPosition::canTakeKing', 'TBPosition::getOccupied', 'TbMoveList::addMove', 'BitBoard::kingAttacks/knightAttacks (dumped tables)'],
-                      stubs=['TbMoveList::sort -> no-op (the lists are used as sets)', SUB_FIRSTBIT],
-                      bounds=CLASS_TXT % c + 'classes without sliding pieces only (KK, KNK, KKN); every valid index; one symbolically chosen entry of the move list'))
+    # (O3, forward/backward consistency of TBPosition::getMoves/getUnMoves on a symbolic index, was tried for the slider-free classes: 20 min of symbolic execution and
+    #  out of memory at 16 GB in propositional reduction, also in the thorough tier: not registered; move/un-move generation stays outside the claim)
     return units, obs
